@@ -58,10 +58,13 @@ package payment
 //@                                    ite(p.WithdrawFee != nil, feeOf(old(spendableOf(p.BalanceStore, wallet))), old(spendableOf(p.BalanceStore, wallet))))
 //@ ensures [nothing-left]     {C07} err == nil ==> p.BalanceStore.acredit == upd(old(p.BalanceStore.acredit), store.Account(wallet), 0) && p.BalanceStore.tcredit == old(p.BalanceStore.tcredit)
 //@ ensures [failure-pays-nothing] {C07} err != nil ==> paid == old(paid)
-//@ ensures [failure-keeps-balance] {C07} err != nil && (p.BalanceStore.loglen == old(p.BalanceStore.loglen) || p.BalanceStore.loglen == old(p.BalanceStore.loglen) + 2)
+// restoreFailed: the credit was debited, the settlement failed, and the store then refused to take the credit back
+// (two balance calls attempted, only the first one succeeded). This is the one case in which a failed withdrawal
+// cannot leave the balance as it was.
+//@ ensures [failure-keeps-balance] {C07} err != nil && !(p.BalanceStore.attempts == old(p.BalanceStore.attempts) + 2 && p.BalanceStore.loglen == old(p.BalanceStore.loglen) + 1)
 //@                                    ==> store.sameCredit(p.BalanceStore)
 //@ ensures [ledger]           {C01} (err == nil ==> p.BalanceStore.total == old(p.BalanceStore.total) - old(p.BalanceStore.acredit[store.Account(wallet)]))
-//@                                    && (err != nil && (p.BalanceStore.loglen == old(p.BalanceStore.loglen) || p.BalanceStore.loglen == old(p.BalanceStore.loglen) + 2)
+//@                                    && (err != nil && !(p.BalanceStore.attempts == old(p.BalanceStore.attempts) + 2 && p.BalanceStore.loglen == old(p.BalanceStore.loglen) + 1)
 //@                                        ==> p.BalanceStore.total == old(p.BalanceStore.total))
 //@ ensures [unlocked]         {C07 C10} !held(p.mu)
 //@ callreq BalanceStore [critical-section] {C07 C10} : held(p.mu)
